@@ -461,6 +461,8 @@ func coveringDesign() *dg.Design {
 	svc := &dg.Service{Name: "cov", BasePath: "/c"}
 	add := func(m *dg.Method) { svc.Methods = append(svc.Methods, m) }
 	coveringResponses(add)
+	coveringWave3(add)
+	coveringMapParams(add)
 	rt1 := func(verb, p string) []dg.Route { return []dg.Route{{Verb: verb, Path: p}} }
 
 	// catch-all pairs: same literal prefix, different verbs, different wildcard names
@@ -506,8 +508,8 @@ func coveringDesign() *dg.Design {
 			dg.F("bi", i64), dg.F("bu", u64), dg.F("ba", dg.ArrayOf(dg.A(i64)))),
 		Result: obj(dg.F("ok", boolT()), dg.F("ri", i64), dg.F("ru", u64), dg.F("rhi", i64), dg.F("rhu", u64)),
 		HTTP: &dg.HTTPMap{Routes: []dg.Route{{Verb: "POST", Path: "/ext/{pu}"}, {Verb: "POST", Path: "/second/ext/{pu}/x"}, {Verb: "PUT", Path: "/third/{pu}"}},
-			Params:  []dg.MapEntry{me("qi", ""), me("qu", "Qu_q"), me("qa", ""), me("mi", ""), me("mb", ""), me("mu", "")},
-			Headers: []dg.MapEntry{me("hi", "X-Hi"), me("hu", "X-Hu")},
+			Params:    []dg.MapEntry{me("qi", ""), me("qu", "Qu_q"), me("qa", ""), me("mi", "Mi_w"), me("mb", ""), me("mu", "f")},
+			Headers:   []dg.MapEntry{me("hi", "X-Hi"), me("hu", "X-Hu")},
 			Responses: []dg.Response{{Status: 200, Headers: []dg.MapEntry{me("rhi", "X-Rhi"), me("rhu", "X-Rhu")}}}}})
 
 	d.Services = []*dg.Service{svc}
@@ -568,6 +570,7 @@ func coveringFixed(prop string) []witnessCase {
 		cs = append(cs, witnessCase{Method: "ext", Payload: vO("pu", vU(1)), Result: vO("ri", vI(maxI64), "rhi", vI(maxI64), "rhu", vU(0))})
 	}
 	cs = append(cs, coveringResponseCases(prop)...)
+	cs = append(cs, wave3Cases(prop)...)
 	return cs
 }
 
